@@ -32,4 +32,5 @@ Definition run (op : Z) (arg : V) : V :=
   if op =? 46 then run_parse_file arg else
   if op =? 47 then run_nbytes_track arg else
   if op =? 48 then run_orderedb arg else
+  if op =? 49 then run_buffers arg else
   fail EOther.
